@@ -473,7 +473,7 @@ pub fn gen_font(rng: &mut Rng, quick: bool, want: Option<CmapScenario>) -> Optio
     let mut subtables: Vec<Vec<u8>> = Vec::new();
     let mut os2_first: Option<u16> = if rng.chance(2, 3) { Some(0x20) } else { None };
     let nchars = if big { 60 + rng.below(200) } else { 1 + rng.below(3 * n + 20) };
-    let mac_chars: Vec<u32> = MAC_ROMAN_PY.iter().copied().filter(|c| *c >= 0x20).collect();
+    let mac_chars: Vec<u32> = MAC_ROMAN_PY.iter().copied().filter(|c| *c >= 0x20 && !mac_ambiguous_char(*c)).collect();
     let desc;
     match scenario {
         CmapScenario::Bmp4 => {
@@ -1152,7 +1152,7 @@ pub fn source_char(c: u32, kind: EncKind, mac_target: bool, os2_first: Option<u1
             }
         }
         EncKind::MacRoman => {
-            if c < 256 {
+            if c < 256 && !MAC_AMBIGUOUS_BYTES.contains(&(c as u8)) {
                 Some(MAC_ROMAN_PY[c as usize])
             } else {
                 None
@@ -1162,6 +1162,17 @@ pub fn source_char(c: u32, kind: EncKind, mac_target: bool, os2_first: Option<u1
     }
 }
 
+/// Bytes on which published Mac OS Roman tables differ: Apple's current table (Python's codec)
+/// assigns mathematical symbols, the Apple logo and the euro sign; the PostScript / PDF
+/// MacRomanEncoding that allsorts implements leaves the symbols unassigned and has the currency
+/// sign at 0xDB. Characters and bytes in this set are not judged (legitimate difference).
+pub const MAC_AMBIGUOUS_BYTES: [u8; 16] = [0xAD, 0xB0, 0xB2, 0xB3, 0xB6, 0xB7, 0xB8, 0xB9, 0xBA, 0xBD, 0xC3, 0xC5, 0xC6, 0xD7, 0xDB, 0xF0];
+
+pub fn mac_ambiguous_char(ch: u32) -> bool {
+    ch == 0xA4 || MAC_AMBIGUOUS_BYTES.iter().any(|b| MAC_ROMAN_PY[*b as usize] == ch)
+}
+
+/// Mac Roman byte of a character of the unambiguous core of the encoding.
 pub fn mac_byte(ch: u32) -> Option<u8> {
-    MAC_ROMAN_PY.iter().position(|u| *u == ch).map(|p| p as u8)
+    MAC_ROMAN_PY.iter().position(|u| *u == ch).map(|p| p as u8).filter(|b| !MAC_AMBIGUOUS_BYTES.contains(b))
 }
